@@ -114,6 +114,7 @@ class Term:
     jax_helpers: tuple = ()           # names of skfem.autodiff.helpers used (evidence / classification)
     det3: bool = False                # uses the JAX 3x3 determinant when dim == 3
     energy: bool = False
+    res_defect: Optional[Callable] = None   # residual under the model of a reproduced defect (classification only)
 
 
 def _c(lo=0.5, hi=2.0, *names):
@@ -198,6 +199,11 @@ def scalar_terms():
            res=lambda U, V, w, P: -P["c"] * np.sin(P["a"] * np.asarray(w.x)[0]) * V[0].v,
            jac=lambda U, D, V, w, P: 0.0 * D[0].v * V[0].v,
            coef=_c(.5, 3, "c", "a"), linear=True))
+    a(Term("advection-linear", "scalar",   # linear, unsymmetric matrix
+           jx=lambda u, v, w, P: P["c"] * JH().dot(w.x, JH().grad(u[0])) * v[0] + P["a"] * u[0] * v[0],
+           res=lambda U, V, w, P: P["c"] * e_dot(np.asarray(w.x), U[0].g) * V[0].v + P["a"] * U[0].v * V[0].v,
+           jac=lambda U, D, V, w, P: P["c"] * e_dot(np.asarray(w.x), D[0].g) * V[0].v + P["a"] * D[0].v * V[0].v,
+           coef=_c(.5, 2, "c", "a"), linear=True, jax_helpers=("dot", "grad")))
     a(Term("operators", "scalar",   # __rsub__, __sub__, __add__, __truediv__, __rmul__ of JaxDiscreteField
            jx=lambda u, v, w, P: (P["c"] * ((1.0 - u[0]) * (u[0] - P["a"])) * v[0]
                                   + ((u[0] + 1.0) * (u[0] / 2.0)) * v[0] + 3.0 * u[0] * v[0]),
@@ -258,6 +264,16 @@ def vector_terms():
            jac=lambda U, D, V, w, P: 2 * P["mu"] * e_ddot(_sym(D[0].g), _sym(V[0].g))
            + P["la"] * e_tr(D[0].g) * e_tr(V[0].g),
            coef=_c(.5, 2, "mu", "la"), linear=True, dims=(2, 3), jax_helpers=("ddot", "sym_grad", "div")))
+    a(Term("oseen-linear", "vector",   # (grad u) x . v + u . v : linear, unsymmetric
+           jx=lambda u, v, w, P: P["c"] * JH().dot(JH().mul(JH().grad(u[0]), w.x), v[0]) + P["a"] * JH().dot(u[0], v[0]),
+           res=lambda U, V, w, P: P["c"] * e_dot(e_mv(U[0].g, np.asarray(w.x)), V[0].v) + P["a"] * e_dot(U[0].v, V[0].v),
+           jac=lambda U, D, V, w, P: P["c"] * e_dot(e_mv(D[0].g, np.asarray(w.x)), V[0].v) + P["a"] * e_dot(D[0].v, V[0].v),
+           coef=_c(.5, 2, "c", "a"), linear=True, dims=(2, 3), jax_helpers=("dot", "mul", "grad")))
+    a(Term("body-force", "vector",
+           jx=lambda u, v, w, P: -P["c"] * (w.x[0] * v[0][1]) + P["a"] * v[0][0],
+           res=lambda U, V, w, P: -P["c"] * np.asarray(w.x)[0] * V[0].v[1] + P["a"] * V[0].v[0],
+           jac=lambda U, D, V, w, P: 0.0 * D[0].v[0] * V[0].v[0],
+           coef=_c(.5, 2, "c", "a"), linear=True, dims=(2, 3)))
     a(Term("convection", "vector",   # (grad u) u . v  (Navier-Stokes), unsymmetric
            jx=lambda u, v, w, P: P["c"] * JH().dot(JH().mul(JH().grad(u[0]), u[0]), v[0]),
            res=lambda U, V, w, P: P["c"] * e_dot(e_mv(U[0].g, U[0].v), V[0].v),
@@ -276,7 +292,10 @@ def vector_terms():
            * JH().div(v[0]),
            res=lambda U, V, w, P: P["c"] * (la_det(U[0].g + _I(U[0].g)) - 1.) * e_tr(V[0].g),
            jac=lambda U, D, V, w, P: P["c"] * e_ddot(la_cof(U[0].g + _I(U[0].g)), D[0].g) * e_tr(V[0].g),
-           coef=_c(.5, 2, "c"), dims=(2, 3), small=True, det3=True, jax_helpers=("det", "grad", "eye", "div")))
+           coef=_c(.5, 2, "c"), dims=(2, 3), small=True, det3=True, jax_helpers=("det", "grad", "eye", "div"),
+           res_defect=lambda U, V, w, P: P["c"] * ((det_with_doubled_minus(U[0].g + _I(U[0].g))
+                                                    if U[0].g.shape[0] == 3 else la_det(U[0].g + _I(U[0].g))) - 1.)
+           * e_tr(V[0].g)))
     a(Term("outer", "vector",   # (u (x) u) : grad v
            jx=lambda u, v, w, P: P["c"] * JH().ddot(JH().prod(u[0], u[0]), JH().grad(v[0])),
            res=lambda U, V, w, P: P["c"] * np.einsum("i...,j...,ij...->...", U[0].v, U[0].v, V[0].g),
@@ -338,6 +357,16 @@ def composite_terms():
                                       - e_tr(D[0].g) * V[1].v - e_tr(V[0].g) * D[1].v - P["eps"] * D[1].v * V[1].v),
            coef=_c(.2, 2, "nu", "eps"), dims=(2, 3),
            jax_helpers=("ddot", "sym_grad", "dot", "mul", "grad", "div")))
+    a(Term("stokes", "vector+scalar",
+           jx=lambda u, v, w, P: (P["nu"] * JH().ddot(JH().sym_grad(u[0]), JH().sym_grad(v[0]))
+                                  - JH().div(u[0]) * v[1] - JH().div(v[0]) * u[1] - P["eps"] * u[1] * v[1]
+                                  - w.x[0] * v[0][1]),
+           res=lambda U, V, w, P: (P["nu"] * e_ddot(_sym(U[0].g), _sym(V[0].g)) - e_tr(U[0].g) * V[1].v
+                                   - e_tr(V[0].g) * U[1].v - P["eps"] * U[1].v * V[1].v
+                                   - np.asarray(w.x)[0] * V[0].v[1]),
+           jac=lambda U, D, V, w, P: (P["nu"] * e_ddot(_sym(D[0].g), _sym(V[0].g)) - e_tr(D[0].g) * V[1].v
+                                      - e_tr(V[0].g) * D[1].v - P["eps"] * D[1].v * V[1].v),
+           coef=_c(.2, 2, "nu", "eps"), linear=True, dims=(2, 3), jax_helpers=("ddot", "sym_grad", "div")))
     a(Term("pressure-dependent-viscosity", "vector+scalar",
            jx=lambda u, v, w, P: ((1. + u[1] * u[1]) * JH().ddot(JH().grad(u[0]), JH().grad(v[0]))
                                   - JH().div(v[0]) * u[1] + (JH().div(u[0]) + P["c"] * JH().dot(u[0], u[0])) * v[1]),
@@ -369,7 +398,7 @@ def composite_terms():
            coef=_c(.3, 1.2, "c", "a"), amp=6.0))
     # --- (H(div), P0): nonlinear Darcy; the divergence is taken from the field attribute
     a(Term("darcy-attr", "hdiv+p0",
-           jx=lambda u, v, w, P: ((1. + P["c"] * (u[1] * u[1])) * JH().dot(u[0], v[0]) - v[0].div * u[1]
+           jx=lambda u, v, w, P: ((1. + P["c"] * (u[1] * u[1])) * JH().dot(u[0], v[0]) - u[1] * v[0].div
                                   + u[0].div * v[1] + (u[1] ** 3) * v[1]),
            res=lambda U, V, w, P: ((1 + P["c"] * U[1].v ** 2) * e_dot(U[0].v, V[0].v) - V[0].d * U[1].v
                                    + U[0].d * V[1].v + U[1].v ** 3 * V[1].v),
@@ -377,7 +406,22 @@ def composite_terms():
                                       + (1 + P["c"] * U[1].v ** 2) * e_dot(D[0].v, V[0].v) - V[0].d * D[1].v
                                       + D[0].d * V[1].v + 3 * U[1].v ** 2 * D[1].v * V[1].v),
            coef=_c(.5, 2, "c"), dims=(2, 3), jax_helpers=("dot",)))
+    a(Term("mixed-poisson", "hdiv+p0",
+           jx=lambda u, v, w, P: (P["c"] * JH().dot(u[0], v[0]) - u[1] * v[0].div + u[0].div * v[1]
+                                  - jnp().sin(w.x[0]) * v[1]),
+           res=lambda U, V, w, P: (P["c"] * e_dot(U[0].v, V[0].v) - V[0].d * U[1].v + U[0].d * V[1].v
+                                   - np.sin(np.asarray(w.x)[0]) * V[1].v),
+           jac=lambda U, D, V, w, P: P["c"] * e_dot(D[0].v, V[0].v) - V[0].d * D[1].v + D[0].d * V[1].v,
+           coef=_c(.5, 2, "c"), linear=True, dims=(2, 3), jax_helpers=("dot",)))
     # --- (H(curl), scalar H1)
+    a(Term("curl-curl", "hcurl+scalar",
+           jx=lambda u, v, w, P: (_jx_curlcurl(u[0], v[0]) + P["c"] * JH().dot(u[0], v[0]) + JH().dot(u[0], JH().grad(v[1]))
+                                  + JH().dot(v[0], JH().grad(u[1])) + u[1] * v[1] - w.x[0] * v[1]),
+           res=lambda U, V, w, P: (_np_curlcurl(U[0], V[0]) + P["c"] * e_dot(U[0].v, V[0].v) + e_dot(U[0].v, V[1].g)
+                                   + e_dot(V[0].v, U[1].g) + U[1].v * V[1].v - np.asarray(w.x)[0] * V[1].v),
+           jac=lambda U, D, V, w, P: (_np_curlcurl(D[0], V[0]) + P["c"] * e_dot(D[0].v, V[0].v) + e_dot(D[0].v, V[1].g)
+                                      + e_dot(V[0].v, D[1].g) + D[1].v * V[1].v),
+           coef=_c(.5, 2, "c"), linear=True, dims=(2, 3), jax_helpers=("dot", "grad")))
     a(Term("curl-pair", "hcurl+scalar",
            jx=lambda u, v, w, P: (_jx_curlcurl(u[0], v[0]) + (1. + u[1] * u[1]) * JH().dot(u[0], v[0])
                                   + JH().dot(u[0], JH().grad(v[1])) + P["c"] * JH().dot(u[0], u[0]) * v[1]),
@@ -484,7 +528,9 @@ def energy_terms():
            res=lambda U, V, w, P: _np_neo_res(U[0].g, V[0].g, P),
            jac=lambda U, D, V, w, P: _np_neo_jac(U[0].g, D[0].g, V[0].g, P),
            coef=_c(.5, 2, "mu", "la"), dims=(2, 3), small=True, det3=True,
-           jax_helpers=("grad", "eye", "ddot", "det")))
+           jax_helpers=("grad", "eye", "ddot", "det"),
+           res_defect=lambda U, V, w, P: (neo_res_with_defect(U[0].g, V[0].g, P) if U[0].g.shape[0] == 3
+                                          else _np_neo_res(U[0].g, V[0].g, P))))
     a(Term("E-pair", "scalar+scalar", energy=True,
            jx=lambda u, w, P: (.5 * JH().dot(JH().grad(u[0]), JH().grad(u[0])) + .5 * P["c"] * (u[1] * u[1])
                                + (u[0] * u[0]) * u[1] + .25 * u[1] ** 4),
